@@ -502,7 +502,7 @@ func runScript(c *kit.Ctx) {
 	}
 	c.End("")
 
-	n := c.N(3000, 150000)
+	n := c.N(3000, 120000)
 	for i := 0; i < n; i++ {
 		id := fmt.Sprintf("s%d", i)
 		if !c.Mine(i, id) {
